@@ -35,6 +35,17 @@ func init() {
 		"vSince":      func(ex *Exec, fr *frame, args []Value) Value { return models["time.Since"](ex, fr, args) },
 		"vMark":       func(ex *Exec, fr *frame, args []Value) Value { ex.logEvent("mark:"+concreteName(ex, args[0]), nil); return nil },
 		"vEventPos":   inVEventPos,
+		"vWatch":      inVWatch,
+		"vWatchOn":    func(ex *Exec, fr *frame, args []Value) Value { ex.watchOn = args[0].(*Term).Val == 1; return nil },
+		"vLockAcquires": func(ex *Exec, fr *frame, args []Value) Value {
+			p := mutexPtr(ex, args[0])
+			return ex.i64(int64(ex.mutexGhost(p).acquires))
+		},
+		"vLockHeld": func(ex *Exec, fr *frame, args []Value) Value {
+			g := ex.mutexGhost(mutexPtr(ex, args[0]))
+			return ex.B.Bool(g.writer || g.readers > 0)
+		},
+		"vSharesStorage": inVSharesStorage,
 		"vEventCount": inVEventCount,
 		"vEventInt":   inVEventInt,
 		"vLockFree":   inVLockFree,
@@ -189,4 +200,170 @@ func inVEventPos(ex *Exec, fr *frame, args []Value) Value {
 		}
 	}
 	return ex.i64(-1)
+}
+
+// reachStorage collects the mutable heap storage reachable from a value.
+type storageSet struct {
+	objs map[*Object][2]int // object -> [lo,hi) element range (for arrays), or [0,1)
+	maps map[*MapObj]bool
+}
+
+func (ex *Exec) collectStorage(v Value, s *storageSet, depth int) {
+	if depth > 6 {
+		return
+	}
+	switch x := v.(type) {
+	case *Ptr:
+		if x.Obj == nil {
+			return
+		}
+		if _, ok := s.objs[x.Obj]; ok {
+			return
+		}
+		s.objs[x.Obj] = [2]int{0, 1 << 30}
+		ex.collectStorage(x.Obj.V, s, depth+1)
+	case *Slice:
+		if x.Nil || x.Arr == nil || x.Cap == 0 {
+			return
+		}
+		r, ok := s.objs[x.Arr]
+		lo, hi := x.Off, x.Off+x.Cap
+		if ok {
+			if r[0] < lo {
+				lo = r[0]
+			}
+			if r[1] > hi {
+				hi = r[1]
+			}
+		}
+		s.objs[x.Arr] = [2]int{lo, hi}
+		arr := x.Arr.V.(*ArrayV)
+		for k := x.Off; k < x.Off+x.Len; k++ {
+			ex.collectStorage(arr.E[k], s, depth+1)
+		}
+	case *Map:
+		if x.M == nil || s.maps[x.M] {
+			return
+		}
+		s.maps[x.M] = true
+		for _, e := range x.M.Entries {
+			ex.collectStorage(e.V, s, depth+1)
+		}
+	case *StructV:
+		for _, f := range x.F {
+			ex.collectStorage(f, s, depth+1)
+		}
+	case *ArrayV:
+		for _, f := range x.E {
+			ex.collectStorage(f, s, depth+1)
+		}
+	case *Iface:
+		if x.T != nil {
+			ex.collectStorage(x.V, s, depth+1)
+		}
+	}
+}
+
+func inVSharesStorage(ex *Exec, fr *frame, args []Value) Value {
+	a, b := &storageSet{objs: map[*Object][2]int{}, maps: map[*MapObj]bool{}}, &storageSet{objs: map[*Object][2]int{}, maps: map[*MapObj]bool{}}
+	ex.collectStorage(args[0], a, 0)
+	ex.collectStorage(args[1], b, 0)
+	for m := range a.maps {
+		if b.maps[m] {
+			return ex.B.True
+		}
+	}
+	for o, ra := range a.objs {
+		if rb, ok := b.objs[o]; ok && ra[0] < rb[1] && rb[0] < ra[1] {
+			return ex.B.True
+		}
+	}
+	return ex.B.False
+}
+
+// mutexPtr accepts a *sync.Mutex / *sync.RWMutex passed directly or boxed in an interface.
+func mutexPtr(ex *Exec, v Value) *Ptr {
+	if i, ok := v.(*Iface); ok {
+		v = i.V
+	}
+	p, ok := v.(*Ptr)
+	if !ok || p.Obj == nil {
+		ex.abort("unsupported", "mutex argument is not a pointer")
+	}
+	return p
+}
+
+// vWatch(root, mu): every heap object and map reachable from root is from now
+// on monitored: reads need mu held (read or write), writes need mu write-held.
+func inVWatch(ex *Exec, fr *frame, args []Value) Value {
+	s := &storageSet{objs: map[*Object][2]int{}, maps: map[*MapObj]bool{}}
+	root := args[0]
+	if i, ok := root.(*Iface); ok {
+		root = i.V
+	}
+	ex.collectStorageDeep(root, s, 0)
+	g := ex.mutexGhost(mutexPtr(ex, args[1]))
+	if ex.watchObj == nil {
+		ex.watchObj = map[*Object]*mutexGhost{}
+		ex.watchMap = map[*MapObj]*mutexGhost{}
+	}
+	mp := mutexPtr(ex, args[1])
+	for o := range s.objs {
+		if o == mp.Obj && len(mp.Path) == 0 {
+			continue
+		}
+		ex.watchObj[o] = g
+	}
+	for m := range s.maps {
+		ex.watchMap[m] = g
+	}
+	return nil
+}
+
+// collectStorageDeep also follows map keys (pointer-keyed maps).
+func (ex *Exec) collectStorageDeep(v Value, s *storageSet, depth int) {
+	if depth > 12 {
+		return
+	}
+	switch x := v.(type) {
+	case *Ptr:
+		if x.Obj == nil {
+			return
+		}
+		if _, ok := s.objs[x.Obj]; ok {
+			return
+		}
+		s.objs[x.Obj] = [2]int{0, 1 << 30}
+		ex.collectStorageDeep(x.Obj.V, s, depth+1)
+	case *Slice:
+		if x.Nil || x.Arr == nil {
+			return
+		}
+		if _, ok := s.objs[x.Arr]; ok {
+			return
+		}
+		s.objs[x.Arr] = [2]int{0, 1 << 30}
+		ex.collectStorageDeep(x.Arr.V, s, depth+1)
+	case *Map:
+		if x.M == nil || s.maps[x.M] {
+			return
+		}
+		s.maps[x.M] = true
+		for _, e := range x.M.Entries {
+			ex.collectStorageDeep(e.K, s, depth+1)
+			ex.collectStorageDeep(e.V, s, depth+1)
+		}
+	case *StructV:
+		for _, f := range x.F {
+			ex.collectStorageDeep(f, s, depth+1)
+		}
+	case *ArrayV:
+		for _, f := range x.E {
+			ex.collectStorageDeep(f, s, depth+1)
+		}
+	case *Iface:
+		if x.T != nil {
+			ex.collectStorageDeep(x.V, s, depth+1)
+		}
+	}
 }
